@@ -106,6 +106,13 @@ class Generator(Curve, Point):
             If something goes wrong, this list will be empty.
         """
         r, s = signature
+        order = self._order
+        if r < 1 or r >= order or s < 1 or s >= order:  # type: ignore[operator]
+            # no key verifies such a signature
+            return []
+        if r >= self._p:
+            # not the x coordinate of a point (possible only when order > p)
+            return []
 
         try:
             points = self.points_for_x(r)
